@@ -249,6 +249,7 @@ class reporter {
   void violation(const std::string& prop, const std::string& key, const std::string& what, json witness = json::object()) {
     const std::lock_guard<std::mutex> g{m};
     ++violation_total;
+    ++per_prop[prop];
     const auto id = prop + "|" + key;
     auto& n = violation_keys[id];
     ++n;
@@ -260,6 +261,7 @@ class reporter {
   }
   void inconclusive(const std::string& why) { const std::lock_guard<std::mutex> g{m}; if (inconcl.size() < 20) inconcl.push(why); ++inconclusive_total; }
   u64 violations_so_far() { const std::lock_guard<std::mutex> g{m}; return violation_total; }
+  u64 violations_for(const std::string& prop) { const std::lock_guard<std::mutex> g{m}; const auto it = per_prop.find(prop); return it == per_prop.end() ? 0 : it->second; }
 
   void finish() {
     const std::lock_guard<std::mutex> g{m};
@@ -306,7 +308,7 @@ class reporter {
   u64 nontrivial_total{0}, distinct_by_construction{0}, violation_total{0}, inconclusive_total{0};
   std::unordered_set<u64> distinct;
   std::map<std::string, u64> counters;
-  std::map<std::string, u64> violation_keys;
+  std::map<std::string, u64> violation_keys, per_prop;
   json samples = json::array(), violations = json::array(), inconcl = json::array(), notes = json::object();
 };
 
